@@ -145,6 +145,38 @@ func init() {
 		}
 		return okS(id, file, strconv.Itoa(int(k)))
 	}
+	// args: start directory, then the directories that hold a regex-assembly directory — all slash-separated and relative
+	// to a fresh directory; the answer is relative to it as well
+	implOps["root.find"] = func(a [][]byte) Result {
+		base := os.Getenv("VERIF_WORKER_SCRATCH")
+		if base == "" {
+			base = os.TempDir()
+		}
+		d, err := os.MkdirTemp(base, "roots")
+		if err != nil {
+			return Result{Status: "harness", Out: [][]byte{[]byte(err.Error())}}
+		}
+		defer os.RemoveAll(d)
+		if rd, e := filepath.EvalSymlinks(d); e == nil {
+			d = rd
+		}
+		_ = os.MkdirAll(filepath.Join(d, string(a[0])), 0o755)
+		for _, r := range a[1:] {
+			_ = os.MkdirAll(filepath.Join(d, string(r), "regex-assembly"), 0o755)
+		}
+		root, err := cmd.VerifFindRootDirectory(filepath.Join(d, string(a[0])))
+		if err != nil {
+			return diag(err.Error())
+		}
+		rel, err := filepath.Rel(d, root)
+		if err != nil || strings.HasPrefix(rel, "..") {
+			return okS("outside:" + root)
+		}
+		if rel == "." {
+			rel = ""
+		}
+		return okS(rel)
+	}
 	oracles["c11.frame"] = oracleC11
 	oracles["c12.roundtrip"] = oracleC12
 	oracles["c12.cli"] = oracleC12CLI
